@@ -166,7 +166,11 @@ def lex_family(prop, tier, seed, *, relevant, select, name, cfgs, N, starts, bud
                rule=None, post=None, evidence_hook=None, acceptance=None):
     ev = report.Evidence(prop, tier, seed, level)
     name = f'{name}-{prop}'      # own crate dir per check: checks may run concurrently
-    defs = select(corpus_defs.all_defs())
+    alld = corpus_defs.all_defs(seed, tier != 'quick')
+    defs = select(alld)
+    long_runs = list(long_defs) if long_defs and isinstance(long_defs[0], tuple) else [(x, long_N) for x in long_defs]
+    have = {d.id for d in defs}
+    defs = defs + [d for d in alld if d.id in {x for x, _ in long_runs} and d.id not in have]
     P = prepare(defs, cfgs, name, profiles)
     rc = 0
     if P.no_ref:
@@ -182,9 +186,10 @@ def lex_family(prop, tier, seed, *, relevant, select, name, cfgs, N, starts, bud
             for s in starts:
                 payloads.append(dict(key=f'{d.id}/{c}/{prof}/{s}', d=d, mir=mir, cfg=c, tables=P.tables[d.id], N=N,
                                      start=s, budget=budget, release=(prof == 'release'), partial=partial))
-            if d.id in long_defs and prof == 'dev':
-                payloads.append(dict(key=f'{d.id}/{c}/{prof}/long', d=d, mir=mir, cfg=c, tables=P.tables[d.id],
-                                     N=long_N, Nmin=9, start=0, budget=budget * 3, release=False, partial=partial))
+            for lid, ln in long_runs:
+                if d.id == lid and prof == 'dev':
+                    payloads.append(dict(key=f'{d.id}/{c}/{prof}/long{ln}', d=d, mir=mir, cfg=c, tables=P.tables[d.id],
+                                         N=ln, Nmin=max(9, ln - 8), start=0, budget=budget * 3, release=False, partial=partial))
     random.Random(seed).shuffle(payloads)
     # heavy definitions first (better packing)
     t = time.time()
@@ -272,7 +277,7 @@ def lex_family(prop, tier, seed, *, relevant, select, name, cfgs, N, starts, bud
         'samples': samples,
         'bounds': {'N_bytes_max': N, 'starts': list(starts), 'per_definition': {k: {'N_reached': sorted(set(v['N'])),
                    'leaves': v['leaves'], 'cfgs': sorted(v['cfgs']), 'wall_s': round(v['wall'], 1)} for k, v in per_def.items()},
-                   'long_runs': sorted(long_defs), 'long_N': long_N if long_defs else None,
+                   'long_runs': [list(x) for x in long_runs],
                    'outside': 'inputs longer than N bytes; definitions outside the corpus; rustc/LLVM lowering after MIR'},
         'queries_discharged': tot['queries'], 'queries_reused_on_replay': tot['cached'], 'solver_s': round(tot['solver_s'], 1),
         'paths': tot['paths'], 'mir_blocks_executed': tot['steps'],
@@ -333,13 +338,15 @@ def sel_for(tier, *tags):
     return sel_tags()
 
 
-LONG_QUICK = ('kw_ident',)
-LONG_THOROUGH = ('kw_ident', 'holes', 'strings', 'numbers', 'skips', 'nested_rep1')
+LONG_QUICK = (('kw_ident', 17), ('long_loop', 72))
+LONG_THOROUGH = (('kw_ident', 17), ('holes', 17), ('strings', 17), ('numbers', 17), ('skips', 17), ('nested_rep1', 17),
+                 ('long_loop', 72), ('long_loop', 136))
 
 
 def c01(tier, seed):
     tp = tier_params(tier)
-    return lex_family('C01', tier, seed, relevant={'C01'}, select=sel_for(tier), name='lex', **tp)
+    return lex_family('C01', tier, seed, relevant={'C01'}, select=sel_for(tier), name='lex',
+                      long_defs=(('long_loop', 40),) if tier == 'quick' else LONG_THOROUGH, **tp)
 
 
 def c02(tier, seed):
@@ -400,6 +407,9 @@ def c05(tier, seed):
             rc = max(rc, known_or_violation('C05', {'function': 'Source::read', 'what': f['what'][:40]},
                                             f'{key}: {f["what"]} (len={m["len"]}, offset={m.get("vars", {}).get("offset")})', info, ev,
                                             'read-' + key.replace('/', '-')))
+    rc = max(rc, kani_cross_check('C05', ev, ['read_u8', 'read_a1', 'read_a2', 'read_a4', 'read_a8', 'read_str_a4']))
+    if ev.violations > 0:
+        rc = 1
     ev.coverage['source_read_contract'] = {'cases': cases, 'queries': q, 'bounds': 'len <= 9, offset any 64-bit value, chunk sizes 1/2/4/8, '
                                            'str and [u8], default and forbid_unsafe' + ('' if tier == 'quick' else ', dev and release')}
     ev.write()
@@ -407,9 +417,41 @@ def c05(tier, seed):
     return rc
 
 
+def kani_cross_check(prop, ev, harnesses):
+    """K: CBMC on the compiled runtime (pointer checks on the unsafe blocks); failures are replayed natively with
+    Kani's concrete playback before being reported"""
+    from . import kani_checks
+    rc = 0
+    out = {}
+    for feats in ((), ('forbid_unsafe',)):
+        r = kani_checks.run_kani(harnesses, feats)
+        tag = '+'.join(feats) or 'default'
+        out[tag] = {'wall_s': r.get('wall_s'), 'verified': r.get('ok'), 'failed': r.get('failures'),
+                    'harnesses': {k: {'status': v['status'], 'checks': v['checks'], 's': v['time_s']} for k, v in r.get('harnesses', {}).items()}}
+        if r.get('error') or r.get('ok') is None:
+            log(f'ENGINE: kani [{tag}]: {r.get("error")} {r.get("raw_tail", "")[-400:]}')
+            rc = max(rc, 2)
+            continue
+        for name, h in r['harnesses'].items():
+            if h['status'] == 'FAILED':
+                if h.get('playback_reproduced'):
+                    info = {'property': prop, 'engine': 'kani', 'harness': name, 'features': list(feats), 'failed_checks': h['failed_checks'],
+                            'playback': h.get('playback_tail'), 'repro': f'cd /verif/kani && cargo kani --harness {name.split("::")[-1]}'}
+                    rc = max(rc, known_or_violation(prop, {'engine': 'kani', 'harness': name.split('::')[-1]},
+                                                    f'kani harness {name} [{tag}] fails: {h["failed_checks"][:2]}', info, ev,
+                                                    'kani-' + name.split('::')[-1] + '-' + tag))
+                else:
+                    log(f'ENGINE: kani harness {name} [{tag}] failed but concrete playback did not reproduce it')
+                    rc = max(rc, 2)
+    ev.coverage['kani'] = out
+    return rc
+
+
 def c20(tier, seed):
     tp = tier_params(tier)
-    return lex_family('C20', tier, seed, relevant={'C20'}, select=sel_for(tier, 'backtrack'), name='lex', **tp)
+    return lex_family('C20', tier, seed, relevant={'C20'}, select=sel_for(tier, 'backtrack'), name='lex',
+                      long_defs=(('long_loop', 72),) if tier == 'quick' else (('long_loop', 72), ('long_loop', 136), ('kw_ident', 17)),
+                      **tp)
 
 
 from .runtime_checks import c15  # noqa: E402
